@@ -1,0 +1,15 @@
+//go:build verif
+
+package compact
+
+import "sync/atomic"
+
+// verifState lets the verification harness pause background compaction cycles.
+type verifState struct {
+	paused atomic.Bool
+}
+
+// VerifSetPaused stops/resumes background compaction cycles of this manager.
+func (cm *Manager) VerifSetPaused(p bool) { cm.verif.paused.Store(p) }
+
+func (cm *Manager) verifPaused() bool { return cm.verif.paused.Load() }
